@@ -71,6 +71,16 @@ impl NodeProcessor for ValueInjection {
     fn process_prefix_expression(&mut self, prefix: &mut Prefix) {
         let replace = match prefix {
             Prefix::Identifier(identifier) => &self.identifier == identifier.get_name(),
+            Prefix::Field(field) => {
+                &self.identifier == field.get_field().get_name()
+                    && !self.is_identifier_used("_G")
+                    && matches!(field.get_prefix(), Prefix::Identifier(prefix) if prefix.get_name() == "_G")
+            }
+            Prefix::Index(index) => {
+                !self.is_identifier_used("_G")
+                    && matches!(index.get_index(), Expression::String(string) if string.get_string_value() == Some(&self.identifier))
+                    && matches!(index.get_prefix(), Prefix::Identifier(prefix) if prefix.get_name() == "_G")
+            }
             _ => false,
         };
 
